@@ -686,3 +686,108 @@ func applyJSONFault(doc []byte, a, b int) ([]byte, bool) {
 	root.write(&sb)
 	return sb.Bytes(), true
 }
+
+// neighbourString returns a string that differs slightly from s.
+func neighbourString(s string, variant int) string {
+	switch abs(variant) % 10 {
+	case 0:
+		return s + "/"
+	case 1:
+		return " " + s
+	case 2:
+		return s + " "
+	case 3:
+		return strings.ToLower(s)
+	case 4:
+		return strings.ToUpper(s)
+	case 5:
+		if len(s) > 0 {
+			return s[:len(s)-1]
+		}
+		return "x"
+	case 6:
+		return s + "\x00"
+	case 7:
+		return strings.TrimSuffix(s, "/")
+	case 8:
+		return ""
+	default:
+		return s + s
+	}
+}
+
+// applyProfileFault edits the value of the profile claim (CBOR key 265 or
+// -75000 of the top-level map; JSON members eat-profile / psa-profile) into a
+// close neighbour of itself: the claim every decode dispatches on.
+func applyProfileFault(msg []byte, variant int, isJSON bool) ([]byte, bool) {
+	if isJSON {
+		root, ok := parseJSONTree(msg)
+		if !ok || root.kind != 'o' {
+			return msg, false
+		}
+		for i, k := range root.keys {
+			if (k == "eat-profile" || k == "psa-profile") && root.kids[i].kind == 'v' && strings.HasPrefix(root.kids[i].raw, "\"") {
+				str, err := strconv.Unquote(root.kids[i].raw)
+				if err != nil {
+					continue
+				}
+				ns := neighbourString(str, variant)
+				if ns == str {
+					return msg, false
+				}
+				root.kids[i] = &jnode{kind: 'v', raw: strconv.Quote(ns)}
+				var sb bytes.Buffer
+				root.write(&sb)
+				return sb.Bytes(), true
+			}
+		}
+		return msg, false
+	}
+	pos := 0
+	for {
+		h, err := readHead(msg, pos)
+		if err != nil {
+			return msg, false
+		}
+		if h.Major == 6 {
+			pos += h.HLen
+			continue
+		}
+		if h.Major != 5 || h.Info == 31 {
+			return msg, false
+		}
+		p := pos + h.HLen
+		for i := uint64(0); i < h.Arg; i++ {
+			kh, err := readHead(msg, p)
+			if err != nil {
+				return msg, false
+			}
+			kEnd, err := walkItem(msg, p, 0, nil)
+			if err != nil {
+				return msg, false
+			}
+			vEnd, err := walkItem(msg, kEnd, 0, nil)
+			if err != nil {
+				return msg, false
+			}
+			isProfileKey := (kh.Major == 0 && kh.Arg == 265) || (kh.Major == 1 && kh.Arg == 74999)
+			if isProfileKey {
+				vh, err := readHead(msg, kEnd)
+				if err == nil && vh.Major == 3 && vh.Info != 31 {
+					str := string(msg[kEnd+vh.HLen : vEnd])
+					ns := neighbourString(str, variant)
+					if ns == str {
+						return msg, false
+					}
+					r := append([]byte{}, msg[:kEnd]...)
+					r = append(r, encodeHead(3, uint64(len(ns)))...)
+					r = append(r, ns...)
+					r = append(r, msg[vEnd:]...)
+					return r, true
+				}
+			}
+			p = vEnd
+		}
+		return msg, false
+	}
+}
